@@ -387,6 +387,8 @@ var c03AbsRequests = []string{
 	"{is{f(x:1)}}", "{is{f(y:2)}}", "{is{f}}", "{is{f(y:2 x:1)}}", "{is{...on I{f(x:1)}}}",
 	"{is{...F}} fragment F on I{f(y:1) g}", "{us{...on I{f(x:1)}}}", "{us{f(x:1)}}", "{us{...on A{f(y:1)} ...on B{f(x:2)}}}",
 	"{is{f(x:1) ...on A{f(y:2)}} i{f(y:3)}}", "{is{g f(zz:1)}}", "{is{f(x:null)}}",
+	"{is{...F}} fragment F on I{g ...F}", "{i{...F}} fragment F on I{...G} fragment G on I{g ...F}",
+	"{us{...F}} fragment F on U{__typename ...F}", "{is{...on I{...F}}} fragment F on A{...on I{...F}}",
 }
 
 // C03_abstract_args: fields with several declared arguments, partly supplied,
